@@ -1,6 +1,7 @@
 """numpy namespace model (assumed contracts on numpy, DESIGN.md 2.4)."""
 import ast
 import z3
+from . import lib as L
 
 from .values import *  # noqa
 from .lib import (SArr, SList, SMutList, SRowList, SRandomState, as_array, elementwise, map_array, arr_sum, arr_all,
@@ -83,7 +84,14 @@ def build(lib):
         return z3.If(to_num(v) >= 0, to_num(v), -to_num(v))
     reg('abs', _abs)
 
+    reg('dstack', lambda it, a, k: L.np_dstack(it, a[0]))
+    reg('mean', lambda it, a, k: L.arr_mean(it, a[0] if isinstance(a[0], SArr) else as_array(it, a[0]), k.get('axis', a[1] if len(a) > 1 else None)))
+
     def _mod(it, a, k):
+        if isinstance(a[1], int) and a[1] == 1 and (isinstance(a[0], SArr) or isinstance(a[0], z3.ArithRef)):
+            # np.mod(x, 1) = x - floor(x)  (exact for reals; z3's ToInt is the floor)
+            fl = lambda x: to_real(x) - z3.ToReal(z3.ToInt(to_real(x)))
+            return map_array(it, a[0], fl) if isinstance(a[0], SArr) else fl(a[0])
         return elementwise(it, ast.Mod(), a[0], a[1]) if isinstance(a[0], SArr) else it.binop(ast.Mod(), a[0], a[1])
     reg('mod', _mod)
 
